@@ -245,6 +245,11 @@ def check_history(d, M, seed):
     try:
         src = scratch / "my site"
         gen_site.write_tree(d, src)
+        # a local file reached through a symbolic link, which is re-pointed between two generations (step 4)
+        (src / "v1.png").write_bytes(b"first picture")
+        (src / "v2.png").write_bytes(b"second picture, another file")
+        os.symlink("v1.png", src / "pic.png")
+        (src / "zz-linkpic.md").write_text("# Linkpic for 1\n\n    1 x\n\n![Ipic](pic.png)\n")
         readme = src / (d["readme"]["file"] if d["readme"] else "README.md")
         if not readme.exists():
             readme.write_text("# Front page\n\nhello\n")
@@ -282,6 +287,13 @@ def check_history(d, M, seed):
             else:
                 diff = sorted(f for f in set(a) | set(b) if a.get(f) != b.get(f))
                 out.append(("C17:output-depends-on-earlier-work-of-the-process", "after a failed build, in-place repairs and stand-alone pages: %r differ from a fresh interpreter's" % diff[:4]))
+        # 4. the link is re-pointed at another file: the next generation follows it, as a fresh interpreter does
+        os.remove(src / "pic.png")
+        os.symlink("v2.png", src / "pic.png")
+        a, b = here(src, "out-here3"), fresh(src, "out-fresh3")
+        if a != b:
+            diff = sorted(f for f in set(a) | set(b) if a.get(f) != b.get(f))
+            out.append(("C17:output-depends-on-earlier-work-of-the-process", "after re-pointing a symbolic link that a recipe's image goes through: %r differ from a fresh interpreter's" % diff[:4]))
         # 3. the same tree plus a recipe without a plain title (its text has been through the stand-alone generator): refused by both
         (src / "sponge.md").write_text(titleless)
         a, b = here(src, "out-here2"), fresh(src, "out-fresh2")
